@@ -21,9 +21,11 @@ theorem c17_code_shape :
     Gen.dispatchRegistersOnlyNonReply = true ∧ Gen.dispatchDeletesOnReply = true ∧
     Gen.dispatchNonceIncrements = true ∧ Gen.packCompletesOnlyReply = true := by decide
 
-/-- regenerated fact: handleCallReq bounds the handshake (the repair of F13); the `callHandler` model
-below is instantiated with this value, so theorem 5 is about the code as it is. -/
-theorem c17_handshake_bounded : Gen.handshakeDeadline = true := by decide
+/-- regenerated facts: handleCallReq puts a deadline on the connection before the handshake and the
+merge of the handshake's error channels closes on every path (the two repairs of F13); the
+`callHandler` model below is instantiated with their conjunction — "the handshake sub-procedure
+always returns" — so theorem 5 is about the code as it is. -/
+theorem c17_handshake_bounded : (Gen.handshakeDeadline && Gen.mergeErrorsReleases) = true := by decide
 
 /-- **1. nonces are fresh**: on a connection no two requests ever carry the same nonce. -/
 theorem nonce_fresh (evs : List Ev) (i j k : Nat)
@@ -249,7 +251,8 @@ theorem silent_peer_isolated : silent_peer_isolated_full true := by
     · exact List.mem_append_right _ (ih _ i p (hstep_not_wedged h e hw) he)
 
 /-- the same for the code's own value of the switch -/
-theorem silent_peer_isolated_code : silent_peer_isolated_full Gen.handshakeDeadline := by
+theorem silent_peer_isolated_code :
+    silent_peer_isolated_full (Gen.handshakeDeadline && Gen.mergeErrorsReleases) := by
   rw [c17_handshake_bounded]; exact silent_peer_isolated
 
 /-- **the defect that was there (F13)**: without a bound on the handshake read the statement is false —
